@@ -41,6 +41,7 @@ class Check:
     )
     max_paths = 20000
     lift = True
+    fl_functional = False  # float results as uninterpreted functions of the operand values (functional consistency)
     relaxed_floats = False  # a non-reproducing model may be an artefact of the float relaxation
 
     def shapes(self, tier):
@@ -78,6 +79,7 @@ def _worker(args):
         check.setup(shape, False)
         budget_s, claim_ms = check.budget(tier)
         E = core.Engine(claim_timeout_ms=claim_ms, seed=seed)
+        E.fl_functional = check.fl_functional
         outcomes = E.explore(lambda e: check.body(e, shape), max_paths=check.max_paths, budget_s=budget_s)
         out["paths"] = E.paths
         out["aborted"] = sum(1 for _, o in outcomes if o == "abort")
